@@ -60,3 +60,191 @@ Theorem C07_cluster_unknown_rune : forall cfg orc help_text total i c w rs argum
   short_loop cfg orc help_text total ((i, c, w) :: rs) argument s r = Ok (s, r, Some (unknown_flag (encode_rune c))).
 Proof. exact short_loop_unknown_first. Qed.
 Print Assumptions C07_cluster_unknown_rune.
+
+(* ---- added by bin/mkprops (batch 2) ---- *)
+From GoFlags Require Import Base.Str Base.Utf8 Golib.Strings Golib.Strconv Model.Types Model.Tag Model.Scan Model.Lookup Model.Convert Model.State Model.Closest Model.Help Model.Parse Model.Ini Model.Complete.
+From GoFlags Require Import Proofs.UnknownSpec.
+
+(* END TO END, no policy: the loop stops at the first unknown option with ErrUnknownFlag naming it; everything before it is applied, nothing after it *)
+Theorem C07_loop_fails_at_the_first_unknown_option :
+  forall (cfg : pconfig) (orc : oracles) (root : command) (ht : rt -> str) (lk : lookup)
+           (pre post : list str) (occs_pre : list DenoteSpec.occ) (u name : str) (arg0 : option str)
+           (fuel : nat) (s : pst) (r r1 : rt),
+         po_ignore (pc_opts cfg) = false ->
+         pc_handler cfg = HNone ->
+         DenoteSpec.spells lk pre occs_pre ->
+         unknown_tok lk u name arg0 ->
+         ps_lk s = lk ->
+         ps_args s = pre ++ [u] ++ post ->
+         (Datatypes.length (pre ++ [u] ++ post) < fuel)%nat ->
+         DenoteSpec.denote orc (pc_nsdelim cfg) ht occs_pre r = Ok (r1, None) ->
+         exists s' : pst,
+           run_loop cfg orc root ht fuel s r = Ok (s', r1) /\
+           ps_err s' = Some (EFlags ErrUnknownFlag (s2l "unknown flag `" ++ name ++ s2l "'")) /\
+           ps_args s' = post /\
+           ps_arg s' = u /\
+           ps_ret s' = ps_ret s /\ ps_pos s' = ps_pos s /\ ps_cmd s' = ps_cmd s /\ ps_lk s' = ps_lk s.
+Proof. exact @C07_loop_fails_at_first_unknown. Qed.
+Print Assumptions C07_loop_fails_at_the_first_unknown_option.
+
+Theorem C07_ParseArgs_fails_at_the_first_unknown_option :
+  forall (cfg : pconfig) (orc : oracles) (root : command) (ht : rt -> str) (pre post : list str)
+           (occs_pre : list DenoteSpec.occ) (u name : str) (arg : option str) (r r1 : rt),
+         let lk := make_lookup (pc_nsdelim cfg) root [] in
+         let e := EFlags ErrUnknownFlag (s2l "unknown flag `" ++ name ++ s2l "'") in
+         po_ignore (pc_opts cfg) = false ->
+         pc_handler cfg = HNone ->
+         DenoteSpec.spells lk pre occs_pre ->
+         unknown_tok lk u name arg ->
+         DenoteSpec.denote orc (pc_nsdelim cfg) ht occs_pre r = Ok (r1, None) ->
+         parse_body cfg orc root ht (pre ++ [u] ++ post) r =
+         Ok (print_error cfg r1 e, {| pr_ret := Some (u :: post); pr_err := Some e |}).
+Proof. exact @C07_parse_fails_at_first_unknown. Qed.
+Print Assumptions C07_ParseArgs_fails_at_the_first_unknown_option.
+
+(* END TO END, IgnoreUnknown (whatever handler): the unknown tokens are exactly the returned arguments, verbatim and in order; the known occurrences are applied as their fold; no handler call *)
+Theorem C07_loop_passes_every_unknown_option_through :
+  forall (cfg : pconfig) (orc : oracles) (root : command) (ht : rt -> str) (lk : lookup)
+           (toks : list str) (items : list item),
+         umixed lk toks items ->
+         forall (fuel : nat) (s : pst) (r rf : rt),
+         po_ignore (pc_opts cfg) = true ->
+         ps_lk s = lk ->
+         ps_args s = toks ->
+         ps_pos s = [] ->
+         (Datatypes.length toks < fuel)%nat ->
+         DenoteSpec.denote orc (pc_nsdelim cfg) ht (knowns items) r = Ok (rf, None) ->
+         exists s' : pst,
+           run_loop cfg orc root ht fuel s r = Ok (s', rf) /\
+           ps_ret s' = ps_ret s ++ utoks items /\
+           ps_args s' = [] /\
+           ps_arg s' = last toks (ps_arg s) /\
+           ps_pos s' = [] /\
+           ps_err s' = ps_err s /\
+           ps_cmd s' = ps_cmd s /\ ps_lk s' = ps_lk s /\ l_unknown (rt_logs rf) = l_unknown (rt_logs r).
+Proof. exact @C07_loop_ignores_all_unknown. Qed.
+Print Assumptions C07_loop_passes_every_unknown_option_through.
+
+(* END TO END, handler: one call per unknown token, in order, with its name, its inline argument and exactly the tokens after it; nothing else changes *)
+Theorem C07_loop_calls_the_handler_once_per_unknown_option :
+  forall (cfg : pconfig) (orc : oracles) (root : command) (ht : rt -> str) (lk : lookup)
+           (toks : list str) (items : list item) (ents : list uentry),
+         ulog lk toks items ents ->
+         forall (fuel : nat) (s : pst) (r rf : rt),
+         po_ignore (pc_opts cfg) = false ->
+         pc_handler cfg = HIdentity ->
+         ps_lk s = lk ->
+         ps_args s = toks ->
+         (Datatypes.length toks < fuel)%nat ->
+         DenoteSpec.denote orc (pc_nsdelim cfg) ht (knowns items) r = Ok (rf, None) ->
+         exists (s' : pst) (r' : rt),
+           run_loop cfg orc root ht fuel s r = Ok (s', r') /\
+           r' = add_unk rf ents /\
+           l_unknown (rt_logs r') = l_unknown (rt_logs r) ++ ents /\
+           rt_vals r' = rt_vals rf /\
+           rt_fl r' = rt_fl rf /\
+           rt_active r' = rt_active rf /\
+           l_calls (rt_logs r') = l_calls (rt_logs rf) /\
+           l_exec (rt_logs r') = l_exec (rt_logs rf) /\
+           l_out (rt_logs r') = l_out (rt_logs rf) /\
+           ps_args s' = [] /\
+           ps_arg s' = last toks (ps_arg s) /\
+           ps_ret s' = ps_ret s /\
+           ps_pos s' = ps_pos s /\ ps_err s' = ps_err s /\ ps_cmd s' = ps_cmd s /\ ps_lk s' = ps_lk s.
+Proof. exact @C07_loop_handler_identity. Qed.
+Print Assumptions C07_loop_calls_the_handler_once_per_unknown_option.
+
+(* the slice the handler returns is what is parsed next (drop-next handler: the dropped token is never parsed) *)
+Theorem C07_handler_result_is_parsed_next :
+  forall (cfg : pconfig) (orc : oracles) (root : command) (ht : rt -> str) (lk : lookup)
+           (pre post : list str) (occs_pre : list DenoteSpec.occ) (u name t : str) 
+           (arg0 : option str) (fuel : nat) (s : pst) (r r1 : rt),
+         po_ignore (pc_opts cfg) = false ->
+         pc_handler cfg = HDropNext ->
+         DenoteSpec.spells lk pre occs_pre ->
+         unknown_tok lk u name arg0 ->
+         ps_lk s = lk ->
+         ps_args s = pre ++ [u] ++ [t] ++ post ->
+         (Datatypes.length (pre ++ [u] ++ [t] ++ post) < fuel)%nat ->
+         DenoteSpec.denote orc (pc_nsdelim cfg) ht occs_pre r = Ok (r1, None) ->
+         exists (fuel' : nat) (s2 : pst),
+           (Datatypes.length post < fuel')%nat /\
+           run_loop cfg orc root ht fuel s r =
+           run_loop cfg orc root ht fuel' s2 (log_unknown r1 name arg0 (t :: post)) /\
+           ps_args s2 = post /\
+           ps_arg s2 = u /\
+           ps_ret s2 = ps_ret s /\
+           ps_pos s2 = ps_pos s /\ ps_err s2 = ps_err s /\ ps_cmd s2 = ps_cmd s /\ ps_lk s2 = ps_lk s.
+Proof. exact @C07_loop_handler_result_is_parsed_next. Qed.
+Print Assumptions C07_handler_result_is_parsed_next.
+
+Theorem C07_handler_result_is_parsed_next_end_to_end :
+  forall (cfg : pconfig) (orc : oracles) (root : command) (ht : rt -> str) (lk : lookup)
+           (pre post : list str) (occs_pre occs_post : list DenoteSpec.occ) (u name t : str)
+           (arg0 : option str) (fuel : nat) (s : pst) (r rf : rt),
+         po_ignore (pc_opts cfg) = false ->
+         pc_handler cfg = HDropNext ->
+         DenoteSpec.spells lk pre occs_pre ->
+         unknown_tok lk u name arg0 ->
+         DenoteSpec.spells lk post occs_post ->
+         ps_lk s = lk ->
+         ps_args s = pre ++ [u] ++ [t] ++ post ->
+         (Datatypes.length (pre ++ [u] ++ [t] ++ post) < fuel)%nat ->
+         DenoteSpec.denote orc (pc_nsdelim cfg) ht (occs_pre ++ occs_post) r = Ok (rf, None) ->
+         exists s' : pst,
+           run_loop cfg orc root ht fuel s r = Ok (s', add_unk rf [(name, arg0, t :: post)]) /\
+           ps_args s' = [] /\
+           ps_arg s' = last post u /\
+           ps_ret s' = ps_ret s /\
+           ps_pos s' = ps_pos s /\ ps_err s' = ps_err s /\ ps_cmd s' = ps_cmd s /\ ps_lk s' = ps_lk s.
+Proof. exact @C07_loop_handler_dropnext_end_to_end. Qed.
+Print Assumptions C07_handler_result_is_parsed_next_end_to_end.
+
+Theorem C07_handler_error_stops_the_loop :
+  forall (cfg : pconfig) (orc : oracles) (root : command) (ht : rt -> str) (lk : lookup)
+           (pre rest : list str) (occs_pre : list DenoteSpec.occ) (u name : str) (arg0 : option str)
+           (fuel : nat) (s : pst) (r r1 : rt),
+         po_ignore (pc_opts cfg) = false ->
+         pc_handler cfg = HError ->
+         DenoteSpec.spells lk pre occs_pre ->
+         unknown_tok lk u name arg0 ->
+         ps_lk s = lk ->
+         ps_args s = pre ++ [u] ++ rest ->
+         (Datatypes.length (pre ++ [u] ++ rest) < fuel)%nat ->
+         DenoteSpec.denote orc (pc_nsdelim cfg) ht occs_pre r = Ok (r1, None) ->
+         exists s' : pst,
+           run_loop cfg orc root ht fuel s r = Ok (s', log_unknown r1 name arg0 rest) /\
+           l_unknown (rt_logs (log_unknown r1 name arg0 rest)) = l_unknown (rt_logs r) ++ [(name, arg0, rest)] /\
+           ps_err s' = Some (EForeign (s2l "handler error: " ++ name)) /\
+           ps_args s' = rest /\
+           ps_arg s' = u /\
+           ps_ret s' = ps_ret s /\ ps_pos s' = ps_pos s /\ ps_cmd s' = ps_cmd s /\ ps_lk s' = ps_lk s.
+Proof. exact @C07_loop_handler_error_stops. Qed.
+Print Assumptions C07_handler_error_stops_the_loop.
+
+(* an option defined only outside the chain root .. current command is unknown at that position *)
+Theorem C07_option_of_another_command_is_unknown_in_the_loop :
+  forall (cfg : pconfig) (orc : oracles) (root : command) (ht : rt -> str) (path : list nat)
+           (pre post : list str) (occs_pre : list DenoteSpec.occ) (u n : str) (arg0 : option str) 
+           (fuel : nat) (s : pst) (r r1 : rt),
+         po_ignore (pc_opts cfg) = false ->
+         pc_handler cfg = HNone ->
+         ps_lk s = make_lookup (pc_nsdelim cfg) root path ->
+         (forall oc : octx,
+          In oc (LookupSpec.chain_octxs root path) ->
+          nonempty (o_long (oc_opt oc)) = true -> long_name (pc_nsdelim cfg) oc <> n) ->
+         argument_is_option u = true ->
+         split_option u = (true, n, arg0) ->
+         DenoteSpec.spells (ps_lk s) pre occs_pre ->
+         ps_args s = pre ++ [u] ++ post ->
+         (Datatypes.length (pre ++ [u] ++ post) < fuel)%nat ->
+         DenoteSpec.denote orc (pc_nsdelim cfg) ht occs_pre r = Ok (r1, None) ->
+         exists s' : pst,
+           run_loop cfg orc root ht fuel s r = Ok (s', r1) /\
+           ps_err s' = Some (EFlags ErrUnknownFlag (s2l "unknown flag `" ++ n ++ s2l "'")) /\
+           ps_args s' = post /\
+           ps_arg s' = u /\
+           ps_ret s' = ps_ret s /\ ps_pos s' = ps_pos s /\ ps_cmd s' = ps_cmd s /\ ps_lk s' = ps_lk s.
+Proof. exact @C07_out_of_scope_unknown_in_loop. Qed.
+Print Assumptions C07_option_of_another_command_is_unknown_in_the_loop.
+
